@@ -37,6 +37,12 @@ PLAIN_FIELDS = ["name", "id", "alpha", "shared", "item", "kind", "proto", "value
                 "Name", "ID", "Type", "type_", "from_", "name_", "nameValue", "kind_"]
 RESERVED_FIELDS = ["type", "class", "import", "from", "in", "max", "format", "next", "list", "hash", "object",
                    "self", "cls", "license", "all", "not", "None", "True", "zip", "mapping", "ignore_unknown_fields"]
+# names of the NON-FIELD members the message template prints into a class body (helper properties `raw_page`, printed
+# for a message that has `next_page_token`, and `done`, printed for an extended-operation status message) ...
+HELPER_FIELDS = ["raw_page", "next_page_token", "done"]
+# ... and of the class-level API proto-plus gives every message class (methods / property of its metaclass): legal proto
+# field names like any other (the statement quantifies over all field names)
+CLASS_API_FIELDS = ["pb", "to_json", "to_dict", "from_json", "serialize", "deserialize", "wrap", "copy_from", "meta"]
 EXT_MSGS = ["google.protobuf.Timestamp", "google.protobuf.Duration", "google.protobuf.Any", "google.protobuf.Struct",
             "google.protobuf.Value", "google.protobuf.FieldMask", "google.protobuf.Empty", "google.protobuf.Int32Value",
             "google.protobuf.StringValue", "google.rpc.Status", "google.type.Expr", "google.longrunning.Operation",
@@ -89,6 +95,7 @@ def ask(ctx, ops):
 # sub-packages of the target package (<api package>.<sub>): their files are rendered through the `%sub` directory of the
 # templates into <root>/<sub>/types/<file>.py; some names are also file / field names (module-name collisions)
 SUB_NAMES = ["catalog", "common", "shared", "item", "kind", "alpha", "admin_v2"]
+EX_OPS_PROTO = "google/cloud/extended_operations.proto"
 DEP_PACKAGE = "acme.dep.v1"
 DEP_FILE_NAMES = ["shared", "common", "item", "dep_types", "value"]
 
@@ -195,6 +202,9 @@ def _msg_pb(m, pb, full):
     synthetic = []
     for fl in m["fields"]:
         f = pb.field.add(name=fl["name"], number=fl["number"], json_name=apigen.json_name(fl["name"]))
+        if fl.get("opfield"):      # (google.cloud.operation_field) = NAME | STATUS | ERROR_CODE | ERROR_MESSAGE
+            from google.cloud import extended_operations_pb2 as ex_ops
+            f.options.Extensions[ex_ops.operation_field] = ex_ops.OperationResponseMapping.Value(fl["opfield"])
         card = fl["card"]
         if card == "map":
             en = map_entry_name(fl["name"])
@@ -241,6 +251,8 @@ def build_files(spec):
             for m in msgs:
                 for fl in m["fields"]:
                     note(fl.get("ref"))
+                    if fl.get("opfield") and EX_OPS_PROTO not in deps:
+                        deps.append(EX_OPS_PROTO)
                 scan(m.get("messages", []))
         scan(f["messages"])
         pb.dependency.extend(deps)
@@ -487,19 +499,73 @@ def fill_fields(r, m, full, path, local_m, local_e, earlier_m, earlier_e, ext_m,
     json_taken = set()
     number = 0
 
-    def fresh_name():
+    def claim(n):
+        j = apigen.json_name(n)
+        if n in taken or j in json_taken or j in taken or map_entry_name(n) in taken:
+            return False
+        taken.add(n)
+        json_taken.add(j)
+        return True
+
+    def fresh_name(optional=False):
         for _ in range(50):
-            n = r.pick(RESERVED_FIELDS) if r.maybe(0.3) else r.pick(PLAIN_FIELDS)
-            j = apigen.json_name(n)
-            if n in taken or j in json_taken or j in taken or map_entry_name(n) in taken:
+            roll = r.random()
+            n = r.pick(RESERVED_FIELDS) if roll < 0.3 else r.pick(PLAIN_FIELDS) if roll < 0.88 else r.pick(HELPER_FIELDS + CLASS_API_FIELDS)
+            if optional and n in CLASS_API_FIELDS:
+                # (finding class-api-shadowed:optional-field: replayed from the corpus on every run, kept out of the random
+                # cases because such a class cannot run the round trips)
                 continue
-            taken.add(n)
-            json_taken.add(j)
-            return n
+            if claim(n):
+                return n
         n = f"f{len(taken)}"
         taken.add(n)
         json_taken.add(n)
         return n
+
+    def add_named(n, card=None, **extra):
+        """a field with a GIVEN name, of any kind unless `card` says otherwise; False when the name is not free"""
+        if not claim(n):
+            return False
+        card = card or r.pick(["single", "single", "repeated", "optional", "map", "oneof"])
+        if card == "oneof":
+            cands = [o for o in ONEOF_NAMES if o not in taken and o not in json_taken]
+            card = "oneof:" + r.pick(cands) if cands else "single"
+            if card != "single":
+                taken.add(card[6:])
+                m["oneofs"].append(card[6:])
+        f = {"name": n, "number": next_number(), "card": card, **extra}
+        if "type" not in f:
+            typed(f)
+        if card == "map":
+            taken.add(map_entry_name(n))
+            f["key"] = r.pick(apigen.MAP_KEY_TYPES)
+        m["fields"].append(f)
+        return True
+
+    # helper-member shapes: a paginated message (`next_page_token`, with or without a field called `raw_page`), an
+    # extended-operation status message (a field annotated STATUS, with or without a field called `done`)
+    wanted = []
+    if r.maybe(0.15):
+        wanted.append(lambda: add_named("next_page_token", **({"card": "single", "type": "string"} if r.maybe(0.8) else {})))
+        if r.maybe(0.65):
+            wanted.append(lambda: add_named("raw_page"))
+    if r.maybe(0.12):
+        def status_field():
+            # (an enum: a string / bool / other status field makes the generator raise, finding generation-crash:status-field-not-enum,
+            # replayed from the corpus)
+            if not local_e and not earlier_e:
+                return
+            extra = {"type": "enum", "ref": r.pick(local_e or earlier_e)}
+            for n in [r.pick(["status", "state"] * 5 + ["done"]), "status", "state", "op_status"]:
+                if add_named(n, card="single", opfield="STATUS", **extra):
+                    return
+        wanted.append(status_field)
+        if r.maybe(0.15):          # (finding descriptor:missing-field:done-property)
+            wanted.append(lambda: add_named("done"))
+    r.shuffle(wanted)
+    inject = {}
+    for w in wanted:
+        inject.setdefault(r.randint(0, nslots), []).append(w)
 
     def next_number():
         nonlocal number
@@ -521,16 +587,18 @@ def fill_fields(r, m, full, path, local_m, local_e, earlier_m, earlier_e, ext_m,
             f["ref"] = pick_target(r, "message", full, path, local_m, earlier_m, ext_m, syms, pkg)
         return f
 
-    for _ in range(nslots):
-        if number >= 536870000:
-            break
+    for slot in range(nslots + 1):
+        for w in inject.get(slot, []):
+            w()
+        if slot == nslots or number >= 536870000:
+            continue
         roll = r.random()
         if roll < 0.40:
             m["fields"].append(typed({"name": fresh_name(), "number": next_number(), "card": "single"}))
         elif roll < 0.58:
             m["fields"].append(typed({"name": fresh_name(), "number": next_number(), "card": "repeated"}))
         elif roll < 0.72:
-            m["fields"].append(typed({"name": fresh_name(), "number": next_number(), "card": "optional"}))
+            m["fields"].append(typed({"name": fresh_name(optional=True), "number": next_number(), "card": "optional"}))
         elif roll < 0.86:
             cands = [o for o in ONEOF_NAMES if o not in taken and o not in json_taken]   # (upb keeps oneofs and JSON names in one table)
             if not cands:
@@ -615,6 +683,59 @@ def layout_spec():
     shared = msg("Shared", [fld("from", 1, "message", ref=f"{D}.Item"), fld("value", 2, "bytes", "optional")])
     return {"package": P, "dep": dep, "files": [{"name": "shared", "enums": [kind], "messages": [item, shared]},
                                                 {"name": "alpha", "enums": [], "messages": [order]}]}
+
+
+def helper_names_spec():
+    """deterministic: fields named like the non-field members of a class body. `raw_page` (every cardinality and kind, top-level
+    and nested) in messages that have `next_page_token` (the pager helper property of that name is printed) and in one that
+    has not; extended-operation status messages (the `done` helper is printed; enum status fields: a string / bool one is the
+    corpus input status_field_not_enum.json, finding generation-crash:status-field-not-enum); a
+    field `done` in a message WITHOUT status field; every name of proto-plus's class-level API as a field (not proto3
+    optional: finding class-api-shadowed:optional-field). The status message WITH a field `done` is the corpus input
+    status_message_with_done_field.json (finding descriptor:missing-field:done-property)."""
+    P = "acme.lib.v1"
+
+    def msg(name, fields=(), messages=(), enums=(), oneofs=()):
+        return {"name": name, "oneofs": list(oneofs), "fields": list(fields), "messages": list(messages), "enums": list(enums)}
+
+    def fld(name, number, type, card="single", ref=None, key=None, opfield=None):
+        d = {"name": name, "number": number, "card": card, "type": type}
+        if ref:
+            d["ref"] = ref
+        if key:
+            d["key"] = key
+        if opfield:
+            d["opfield"] = opfield
+        return d
+    npt = fld("next_page_token", 2, "string")
+    state = {"name": "State", "values": [["STATE_UNSPECIFIED", 0], ["RUNNING", 1], ["DONE", 2]]}
+    msgs = [
+        msg("ListPagesResponse", [fld("pages", 1, "string", "repeated"), npt, fld("raw_page", 3, "bytes")]),
+        msg("ListFirst", [fld("raw_page", 1, "string", "repeated"), npt]),                       # declared BEFORE next_page_token
+        msg("ListOptional", [npt, fld("raw_page", 5, "int64", "optional")]),
+        msg("ListMap", [npt, fld("raw_page", 4, "sint32", "map", key="string")]),
+        msg("ListOneof", [npt, fld("items", 1, "string", "oneof:pick"), fld("raw_page", 7, "uint32", "oneof:pick")], oneofs=["pick"]),
+        msg("ListSelf", [npt, fld("raw_page", 3, "message", ref=f"{P}.ListSelf"), fld("kind", 4, "enum", ref=f"{P}.State")],
+            [msg("Inner", [fld("next_page_token", 1, "bytes"), fld("raw_page", 2, "message", "repeated", ref=f"{P}.ListSelf.Inner"),
+                           fld("done", 3, "bool")])]),
+        msg("ListIntToken", [fld("next_page_token", 1, "int32"), fld("raw_page", 2, "enum", ref=f"{P}.State")]),
+        msg("Snapshot", [fld("raw_page", 1, "bytes"), fld("url", 2, "string")]),                # control: no helper printed
+        msg("ListPlain", [fld("items", 1, "string", "repeated"), npt]),                          # control: helper, no such field
+        msg("EnumOp", [fld("name", 1, "string", opfield="NAME"), fld("status", 2, "enum", ref=f"{P}.State", opfield="STATUS"),
+                       fld("raw_page", 3, "string"), fld("next_page_token", 4, "string")]),
+        msg("CodeOp", [fld("state", 1, "enum", ref=f"{P}.State", opfield="STATUS"), fld("error_code", 2, "int32", opfield="ERROR_CODE"),
+                       fld("error_message", 3, "string", opfield="ERROR_MESSAGE")],
+            [msg("Done", [fld("done", 1, "string"), fld("raw_page", 2, "bool")])]),
+        msg("NotAnOp", [fld("done", 1, "bool"), fld("status", 2, "enum", ref=f"{P}.State"), fld("name", 3, "string", opfield="NAME")]),
+        msg("ClassApi", [fld("pb", 1, "string"), fld("to_json", 2, "bytes"), fld("to_dict", 3, "int32", "repeated"),
+                         fld("from_json", 4, "string", "oneof:how"), fld("serialize", 5, "message", ref=f"{P}.Snapshot"),
+                         fld("deserialize", 6, "message", "repeated", ref=f"{P}.ClassApi"), fld("wrap", 7, "string", "map", key="int32"),
+                         fld("copy_from", 8, "enum", ref=f"{P}.State"), fld("meta", 9, "bool", "oneof:how"),
+                         fld("raw_page", 10, "string"), fld("done", 11, "double"), fld("next_page_token", 12, "string")],
+            [msg("Nested", [fld("pb", 1, "int32"), fld("serialize", 2, "string", "repeated"), fld("meta", 3, "message", ref=f"{P}.ClassApi")])],
+            oneofs=["how"]),
+    ]
+    return {"package": P, "files": [{"name": "pages", "enums": [state], "messages": msgs}]}
 
 
 def subpackage_spec():
@@ -857,6 +978,61 @@ def ext_field_types(full):
     return _EXT_FT[full]
 
 
+def has_status_field(m):
+    """`message.extended_operation_status_field`: some field carries (google.cloud.operation_field) = STATUS"""
+    return any(fl.get("opfield") == "STATUS" for fl in m["fields"])
+
+
+def done_shadowed(spec):
+    """full names of the messages in the shape of finding descriptor:missing-field:done-property: an extended-operation
+    status field AND a field whose attribute is `done` (the helper property printed after the fields replaces it)"""
+    out = {full for full, s in symbols(spec).items()
+           if s["kind"] == "message" and has_status_field(s["spec"]) and any(fl["name"] == "done" for fl in s["spec"]["fields"])}
+    return out | (done_shadowed(spec["dep"]) if spec.get("dep") else set())      # (the dependency library is generated the same way)
+
+
+def scrub_done(dyn, affected):
+    """clear the field `done` of every message of an `affected` type inside a valuation (known finding: the class has no
+    such field; the descriptor oracle reports it, the round trips exercise the rest of the message)"""
+    if dyn.DESCRIPTOR.full_name in affected:
+        dyn.ClearField("done")
+    for fd, val in dyn.ListFields():
+        if fd.message_type is None:
+            continue
+        if fd.message_type.GetOptions().map_entry:
+            if fd.message_type.fields_by_name["value"].message_type is not None:
+                for k in val:
+                    scrub_done(val[k], affected)
+        elif fd.label == fd.LABEL_REPEATED:
+            for x in val:
+                scrub_done(x, affected)
+        else:
+            scrub_done(val, affected)
+
+
+def strip_done_json(desc, j, affected):
+    """the same on protobuf's JSON of a valuation (which prints implicit-presence fields at their default)"""
+    if not isinstance(j, dict) or desc.full_name in rpc.WKT_SAMPLES or desc.full_name.startswith("google.protobuf."):
+        return j
+    if desc.full_name in affected:
+        j.pop("done", None)
+    for fd in desc.fields:
+        v = j.get(fd.json_name)
+        if v is None or fd.message_type is None:
+            continue
+        if fd.message_type.GetOptions().map_entry:
+            vt = fd.message_type.fields_by_name["value"].message_type
+            if vt is not None:
+                for x in v.values():
+                    strip_done_json(vt, x, affected)
+        elif fd.label == fd.LABEL_REPEATED:
+            for x in v:
+                strip_done_json(fd.message_type, x, affected)
+        else:
+            strip_done_json(fd.message_type, v, affected)
+    return j
+
+
 def exec_order(top, path=()):
     """messages in the order their class bodies finish their nested classes and run their fields"""
     for n in top.get("messages", []):
@@ -874,7 +1050,10 @@ def model_module_op(spec, f):
     for top in f["messages"]:
         for m, path in exec_order(top):
             full = ".".join([pkg] + path)
-            msgs.append({"path": path, "fields": [model_field(spec, syms, full, fl) for fl in m["fields"]]})
+            msgs.append({"path": path, "fields": [model_field(spec, syms, full, fl) for fl in m["fields"]],
+                         # the other names the class body binds: nested classes; the `done` helper of status messages
+                         "nested": [e["name"] for e in m.get("enums", [])] + [n["name"] for n in m.get("messages", [])],
+                         "status": has_status_field(m)})
     return {"op": "c02.module", "version": version_of(spec["package"]), "package": pkg.split("."), "module": f["name"],
             "api_package": spec["package"].split("."),
             "collisions": file_collisions(spec, f), "order": [e["name"] for e in f["enums"]] + [m["name"] for m in f["messages"]],
@@ -1046,7 +1225,11 @@ def run_spec(ctx, r, spec, label, nvals=None):
     t2_schema(ctx, spec, api, files, payload)
     res, err = generate_from(api, opts)
     if err:
-        ctx.fail("generation-crash:" + err[0], f"generator raised {err[0]}: {err[1]}", payload)
+        key = err[0]
+        if err[0].startswith("UndefinedError") and "_message.py.j2" in err[0] and re.search(r"'(str|bool)' is undefined", err[1]) and any(
+                fl.get("opfield") == "STATUS" and fl["type"] != "enum" for s_ in syms.values() if s_["kind"] == "message" for fl in s_["spec"]["fields"]):
+            key = "status-field-not-enum"        # the `done` helper of _message.py.j2 compares python_type with the undefined names str / bool
+        ctx.fail("generation-crash:" + key, f"generator raised {err[0]}: {err[1]}", payload)
         return
     dep_res = None
     if dep_files:       # the dependency package is generated as a library of its own and installed next to the target one
@@ -1071,6 +1254,7 @@ def run_spec(ctx, r, spec, label, nvals=None):
         return
     codec = rpc.Codec(dep_files + files)
     nvals = nvals if nvals is not None else ctx.n(2, 4)
+    affected = done_shadowed(spec)
     trips = []
     vr = apigen.Rng(r.random(), "valuations")
     for full, s in syms.items():
@@ -1087,6 +1271,8 @@ def run_spec(ctx, r, spec, label, nvals=None):
         if z.ListFields():
             dyns.append(("zeros", z))
         for kind, dyn in dyns:
+            if affected:
+                scrub_done(dyn, affected)
             data = dyn.SerializeToString(deterministic=True)
             try:
                 lit = literal_of(spec, dyn)
@@ -1096,8 +1282,9 @@ def run_spec(ctx, r, spec, label, nvals=None):
             trips.append({"full": full, "kind": kind, "b64": base64.b64encode(data).decode(),
                           "json": json_format.MessageToJson(dyn, descriptor_pool=codec.pool), "value": codec.decode(full, data),
                           "literal": lit,
-                          "want_json": json_format.MessageToDict(dyn, always_print_fields_with_no_presence=True,
-                                                                 use_integers_for_enums=True, descriptor_pool=codec.pool)})
+                          "want_json": strip_done_json(dyn.DESCRIPTOR, json_format.MessageToDict(
+                              dyn, always_print_fields_with_no_presence=True, use_integers_for_enums=True,
+                              descriptor_pool=codec.pool), affected)})
     root = genrun.materialise(dep_res) if dep_res is not None else None
     root = genrun.materialise(res, root)
     try:
@@ -1233,7 +1420,7 @@ def compare(ctx, spec, syms, files, out, model, trips, codec, shadows, payload, 
         rt = dp.DescriptorProto.FromString(base64.b64decode(rec["desc"]))
         want = norm_input(by_full_input[full])
         got = norm_input(rt)
-        check_message(ctx, full, want, got, rt, shadow_set, payload)
+        check_message(ctx, full, want, got, rt, shadow_set, payload, done_shape=full in done_shadowed(spec))
         check_model(ctx, full, model_by_path.get(full), rt, payload)
     enum_fulls = sorted(want_enums & set(out["enums"]))
     enum_model = ask(ctx, [{"op": "c02.enum", "values": syms[full]["spec"]["values"]} for full in enum_fulls])
@@ -1254,12 +1441,24 @@ def compare(ctx, spec, syms, files, out, model, trips, codec, shadows, payload, 
         ctx.traces += 1
         if emo.get("values") != [[v.name, v.number] for v in e.value]:
             ctx.disagree("T3:c02.enum", f"{full}: model {emo} vs run-time value order {[[v.name, v.number] for v in e.value]}", payload)
+    # ---- the class can serialise at all: Class.serialize / deserialize / to_json / from_json / pb / ... are the class-level API
+    api_lost_known = set()
+    for full, lost in sorted((out.get("shadowed_class_api") or {}).items()):
+        opt = {fl["name"] for fl in syms[full]["spec"]["fields"] if fl["card"] == "optional"} if full in syms else set()
+        for n in lost:
+            ctx.fail("class-api-shadowed" + (":optional-field" if n in opt else ""),
+                     f"{full}: {full.rsplit('.', 1)[-1]}.{n} is not the proto-plus class-level API any more (it evaluates to a str): "
+                     f"calling it raises TypeError" + (f"; the message has a proto3-optional field called {n}" if n in opt else ""), payload)
+        if lost and set(lost) <= opt:
+            api_lost_known.add(full)
     # ---- two-way round trips and JSON
     for t, rt_ in zip(trips, out["roundtrips"]):
         ctx.case(distinct_key=["val", t["full"], t["b64"]], nontrivial=bool(t["value"]))
         pl = {**payload, "message": t["full"], "value": t["value"]}
         if "raised" in rt_:
-            ctx.fail("roundtrip:raised:" + rt_["stage"], f"{t['full']}: {rt_['stage']} raised {rt_['raised']}: {rt_['msg']}", pl)
+            # (a class whose class-level API is shadowed by its own optional fields cannot run every stage: same finding)
+            ctx.fail("class-api-shadowed:optional-field" if t["full"] in api_lost_known else "roundtrip:raised:" + rt_["stage"],
+                     f"{t['full']}: {rt_['stage']} raised {rt_['raised']}: {rt_['msg']}", pl)
             continue
         back = codec.decode(t["full"], rt_["bytes_out"])
         if back != t["value"] or has_unknown(codec, t["full"], rt_["bytes_out"]):
@@ -1298,11 +1497,15 @@ def _is_map_entry(rec):
     return dp.DescriptorProto.FromString(base64.b64decode(rec["desc"])).options.map_entry
 
 
-def check_message(ctx, full, want, got, rt, shadow_set, payload):
+def check_message(ctx, full, want, got, rt, shadow_set, payload, done_shape=False):
     """run-time descriptor ≅ input descriptor, aspect by aspect (keys name the aspect)"""
     wf, gf = want["fields"], got["fields"]
     for num in sorted(set(wf) - set(gf)):
-        ctx.fail("descriptor:missing-field", f"{full}: field {wf[num]['name']} = {num} is not declared by the class", payload)
+        known = done_shape and wf[num]["name"] == "done"
+        ctx.fail("descriptor:missing-field" + (":done-property" if known else ""),
+                 f"{full}: field {wf[num]['name']} = {num} is not declared by the class"
+                 + (" (an extended-operation status message: the `done` helper property, printed after the fields, replaces it)" if known else ""),
+                 payload)
     for num in sorted(set(gf) - set(wf)):
         ctx.fail("descriptor:extra-field", f"{full}: class declares {gf[num]['name']} = {num}, not in the input", payload)
     for num in sorted(set(wf) & set(gf)):
@@ -1675,7 +1878,9 @@ def run(ctx):
                 "numbers), repeated / proto3-optional / oneof members / maps over every legal key type, references to self, "
                 "ancestors, descendants, later and earlier types of the file, other files of the package and dependency "
                 "packages (google.protobuf / google.rpc / google.type / google.api / google.longrunning), names from pools of "
-                "12-35 incl. 21 reserved words, the module names and names differing only by case or a trailing underscore; in ~30% of "
+                "12-35 incl. 21 reserved words, the module names, names differing only by case or a trailing underscore, the names of the NON-FIELD members of a class body "
+                "(raw_page in messages with next_page_token, done in extended-operation status messages: ~15% / ~12% of the messages get "
+                "the shape) and of proto-plus's class-level API (pb, serialize, to_json, ...); in ~30% of "
                 "the cases a second package generated as its own proto-plus library and named in proto-plus-deps (same-named "
                 "modules and messages across the two packages); real oneofs of 1..3 members; distinct by spec; per message 2-4 random "
                 "valuations plus one that SETS every explicit-presence scalar to its zero value, each sent as bytes, as JSON text and as "
@@ -1697,6 +1902,11 @@ def run(ctx):
     ctx.assume("valuations with a repeated or map field of google.protobuf.Value/ListValue/Struct are not written as literal dicts "
                "(proto-plus reads a list/dict given for those types as one value); they still go through bytes and JSON")
     ctx.assume("no field is named <reserved word>_ next to a field named <reserved word> (protoc rejects the JSON-name conflict)")
+    ctx.assume("field names do not start with an underscore (legal for protoc; `_pb`, `_meta`, `__class__`, `__module__`, ... are the instance "
+               "and class internals of proto-plus and Python: probed by hand, several of them break attribute assignment or the class itself)")
+    ctx.assume("extended-operation STATUS fields in the random cases are enums (a string / bool one is the corpus input of finding "
+               "generation-crash:status-field-not-enum); no random proto3-optional field is called like proto-plus's class-level API "
+               "(corpus input of finding class-api-shadowed:optional-field); every other kind of field with those names is generated")
     t2_tables(ctx)
     run_excluded(ctx)
     r = ctx.rng("types")
@@ -1705,6 +1915,7 @@ def run(ctx):
     run_spec(ctx, r, coverage_spec(), "coverage", nvals=ctx.n(3, 8))
     run_spec(ctx, r, layout_spec(), "layout", nvals=ctx.n(3, 8))
     run_spec(ctx, r, subpackage_spec(), "subpackages", nvals=ctx.n(3, 8))
+    run_spec(ctx, r, helper_names_spec(), "helper-names", nvals=ctx.n(3, 8))
     n = ctx.n(40, 500)
     for i in range(n):
         run_spec(ctx, r, gen_spec(r, big=(i % 5 == 4)), f"gen{i}")
@@ -1737,7 +1948,10 @@ CLAIM = dict(
           "nesting/forward/recursive/shadowed shape (rel_resolves; the former defect X.A -> A.B is a regression theorem and corpus input); (5) the "
           "manifest lists exactly the top-level classes; (6) the module header registers the types in the proto package of THEIR file, "
           "also for files of a sub-package of the API package, all modules sharing the API package's marshal (module_header_package, "
-          "module_marshal_shared, module_types_full_name). Tie: T1 bridge of RESERVED_NAMES and keyword.kwlist; T2 real Field.name, "
+          "module_marshal_shared, module_types_full_name); (7) in the class body the template prints (nested classes, the raw_page helper, "
+          "the fields, the done helper; last binding of a name wins) a field keeps its declaration whatever it is called, in particular "
+          "raw_page, unless it is called done in an extended-operation status message (field_kept, raw_page_field_kept, kept_field_seen; "
+          "done_field_lost_counterexample = finding descriptor:missing-field:done-property). Tie: T1 bridge of RESERVED_NAMES and keyword.kwlist; T2 real Field.name, "
           "proto_type, Address.rel/__str__/module_alias/python_import, ToJsonName via DescriptorPool; T3 the run-time descriptor of "
           "EVERY emitted class (fresh interpreter) vs the model's predicted FieldDescriptorProtos; model-independent oracle: run-time "
           "descriptor = input descriptor aspect by aspect, two-way binary round trips and to_json/from_json against dynamic messages "
